@@ -98,6 +98,9 @@ type grp struct {
 type segRef struct {
 	shape, ver int
 	typ        seg.Type
+	// peers selects the peer entries of the last AS entry (0 = none): same hops,
+	// hence the same segment id, but a different FullID (hash incl. peerings).
+	peers int
 }
 
 type opT struct {
@@ -245,6 +248,9 @@ func genHistory(r *vgen.Rand, mutated bool) *history {
 			}
 			for j := 0; j < ns; j++ {
 				s := segRef{shape: r.Intn(len(h.shapes)), ver: r.Range(1, 4), typ: seg.TypeDown}
+				if r.Bool() {
+					s.peers = r.Range(1, 2)
+				}
 				if increasing {
 					s.ver = clock
 					if r.Chance(2, 3) {
@@ -325,7 +331,13 @@ func execute(h *history, name string) ([]obsT, string) {
 		if o.isReg {
 			var metas []*seg.Meta
 			for _, s := range o.segs {
-				ps, err := hpseg.Build(h.shapes[s.shape].hops, t0,
+				hops := append([]hpseg.Hop(nil), h.shapes[s.shape].hops...)
+				for k := 0; k < s.peers; k++ {
+					last := &hops[len(hops)-1]
+					last.Peers = append(last.Peers, hpseg.Peer{IA: universe[(s.shape+k)%len(universe)],
+						Local: uint16(20 + 10*s.peers + k), Remote: uint16(7 + k), Exp: 63})
+				}
+				ps, err := hpseg.Build(hops, t0,
 					t0.Add(time.Duration(s.ver)*time.Second), uint16(s.ver))
 				if err != nil {
 					return nil, "build: " + err.Error()
@@ -558,7 +570,7 @@ func main() {
 		"(real signed-format segments) in versions 1..; mostly admissible ops, each ingredient flawed with " +
 		"p=1/14 (every 4th history: p=1/4): unknown/zero group, non-writer, non-member, local AS not a registry, " +
 		"non-down segment, failing verification, no/duplicate group ids, wildcard/zero-ISD destinations, empty " +
-		"registrations, stale versions; non-trivial = at least one admitted registration and one answered request " +
+		"registrations, stale versions, refreshed versions with changed peer entries (other FullID); non-trivial = at least one admitted registration and one answered request " +
 		"returning segments"
 	rng := vgen.NewRand(run.Seed)
 	n := run.Count(1000, 20000)
